@@ -38,3 +38,6 @@ Definition os_reg_SetRecord (w : wsworld) (id : Z) (b : go_WrkChainBlock) := lif
 Definition os_reg_DeleteRecord (w : wsworld) (id h : Z) := lift_w w (go_st_deleteWrkChainHash (wsw_store w) id h).
 Definition os_reg_LowestKeyInState (w : wsworld) (id : Z) := go_st_GetLastWrkChainHeightInState (wsw_store w) id.
 Definition os_reg_GetRecord (w : wsworld) (id h : Z) := go_st_GetWrkChainBlock (wsw_store w) id h.
+(* genesis export (genesis.go): the listings *)
+Definition os_reg_GetAllEntities (w : wsworld) := go_st_GetAllWrkChains (wsw_store w).
+Definition os_reg_GetRecordsForExport (w : wsworld) (id : Z) := go_st_GetAllWrkChainBlockHashesForGenesisExport (wsw_store w) id.
